@@ -34,3 +34,19 @@ func VerifQueue(sub Subscriber) *queue.Queue {
 	}
 	return nil
 }
+
+// VerifTopicSubscribers returns the IDs of the subscribers registered for topic
+// in the stream's topics map. Verification harness only.
+func VerifTopicSubscribers(stream Stream, topic string) []string {
+	b, ok := stream.(*EventsStream)
+	if !ok {
+		return nil
+	}
+	b.topicsMu.RLock()
+	defer b.topicsMu.RUnlock()
+	ids := make([]string, 0, len(b.topics[topic]))
+	for id := range b.topics[topic] {
+		ids = append(ids, id)
+	}
+	return ids
+}
